@@ -195,6 +195,7 @@ func driveBSCClient(t *testing.T, in, out string, seed int64) {
 	for bi, b := range behaviours {
 		l := NewLC()
 		c := l.C
+		RoundTripAtEnd("bscclient", bi, map[string]*Chain{"host": c})
 		w := &bscWorld{C: c, K: keys}
 		l.EnsureRelayer([]string{bscName})
 		init := b[0]
